@@ -289,10 +289,10 @@ pub fn family(thorough: bool) -> Vec<(String, Vec<RuleSpec>)> {
     let sels: Vec<Sel> = if thorough {
         vec![
             Sel::Empty, Sel::TuWe, Sel::Tu, Sel::We, Sel::Fr, Sel::WeTh, Sel::Th, Sel::MoSu, Sel::Y2024, Sel::Jun, Sel::Jun12, Sel::Jun11To13, Sel::Y2024Jun12,
-            Sel::Y2024Jun10To12, Sel::Week24, Sel::Ph, Sel::Jul, Sel::Y2024Jun, Sel::Y2025, Sel::YStep2, Sel::Su2,
+            Sel::Y2024Jun10To12, Sel::Week24, Sel::Ph, Sel::Jul, Sel::Y2024Jun, Sel::Y2025, Sel::YStep2, Sel::Su2, Sel::Dec20ToJun12, Sel::Jun13ToJan10, Sel::Week23To24,
         ]
     } else {
-        vec![Sel::Empty, Sel::TuWe, Sel::We, Sel::Th, Sel::Y2024, Sel::Jun12, Sel::Y2024Jun12, Sel::Week24, Sel::Ph, Sel::Jul, Sel::Y2024Jun]
+        vec![Sel::Empty, Sel::TuWe, Sel::We, Sel::Th, Sel::Y2024, Sel::Jun12, Sel::Y2024Jun12, Sel::Week24, Sel::Ph, Sel::Jul, Sel::Y2024Jun, Sel::Dec20ToJun12, Sel::Jun13ToJan10]
     };
     // single rule: every selector, free span / full day / two spans
     for sel in sels.iter().copied() {
@@ -338,6 +338,21 @@ pub fn family(thorough: bool) -> Vec<(String, Vec<RuleSpec>)> {
                     vec![spec(n, KindSpec::Any, a, vec![SpanSpec::FullDay], vec![]), spec(op, KindSpec::Any, b, vec![SpanSpec::FullDay], vec![])],
                 ));
             }
+        }
+    }
+    // three rules ending in a full-day fallback: the `trivially constant` shortcut must look at every
+    // earlier rule, not only at the one before the fallback
+    let closed = KindSpec::Is(RuleKind::Closed);
+    for (a, b) in [(Sel::MoFr, Sel::Th), (Sel::We, Sel::Empty), (Sel::Empty, Sel::We), (Sel::TuWe, Sel::Fr)] {
+        for mid_op in [RuleOperator::Normal, RuleOperator::Additional, RuleOperator::Fallback] {
+            out.push((
+                format!("threefb_{}_{a:?}_{b:?}", op_tag(mid_op)),
+                vec![
+                    spec(n, KindSpec::NonClosed, a, vec![SpanSpec::Free], vec!["c0"]),
+                    spec(mid_op, closed, b, vec![SpanSpec::FullDay], vec![]),
+                    spec(RuleOperator::Fallback, KindSpec::Any, Sel::Empty, vec![SpanSpec::FullDay], vec![]),
+                ],
+            ));
         }
     }
     out.reverse();
